@@ -15,6 +15,11 @@ CLAIMED = {
     text='Seeded search over generated generator / async-generator / coroutine bodies x protocol-operation sequences and event-loop scenarios (virtual time, seeded I/O completion, cancellation and time-outs injected at seeded instants, early break + finalisation, shutdown with live generators); the decorated function must produce the same per-object trace, body log (cleanup order) and final state as its undecorated twin, and report the same kind to inspect. Evidence, not proof.',
     note='Trusted: the virtual loop (asyncio.BaseEventLoop with a fake selector), the trampoline driver, the body generator (no yields while handling GeneratorExit, as the property excludes them).',
     design='5/C08'),
+ 'C16': dict(
+    technique='deterministic simulation: histories of interpreter runs over one on-disk tree with per-run hook configuration, simulated-mtime edits, seeded line-level interleaving of concurrent imports (incl. importlib frames) and crash points; empty-cache twin as oracle',
+    text='Seeded search over sequences of interpreter runs on a scratch package tree (hook off / 7 configurations per run, source edits with simulated mtime, 2-3 threads importing hooked and unhooked modules under a seeded schedule with pre-emption inside beartype\'s loader and importlib\'s SourceLoader.get_code, crashes at seeded steps); every module must behave as on a copy of the tree with an empty cache, and every .pyc must hold transformed code iff its name carries beartype\'s marker. Evidence, not proof.',
+    note='Trusted: interpreter boundary emulated by restoring beartype state and evicting the package (violations re-confirmed with one forked child per interpreter run), behavioural fingerprint as the observation, disjoint modules per thread (import-system locks avoided, not modelled).',
+    design='5/C16'),
  'C17': dict(
     technique='deterministic simulation: seeded construction histories with look-alike/invalid/unhashable value and environment faults against a reference memo-table model; threaded fraction under the baton scheduler',
     text='Seeded search over histories of BeartypeConf constructions (valid, invalid, equal-but-differently-typed, unhashable values; BEARTYPE_IS_COLOR faults; two threads under the scheduler in 20% of runs) checked step by step against a small executable reference model of validation and memoisation. Evidence, not proof.',
@@ -42,7 +47,7 @@ NOT_APPLICABLE = {
 }
 
 PENDING = {k: 'not claimed yet: the simulation engine for this property (DESIGN.md section 5) is not built at this commit' for k in
-           ['C01','C02','C03','C07','C09','C10','C11','C16','C18']}
+           ['C01','C02','C03','C07','C09','C10','C11','C18']}
 
 def main():
     checks = []
